@@ -1,6 +1,6 @@
 (* C20: dump_to_sql leaves the table in the state its mode prescribes. *)
 From Coq Require Import List ZArith Bool.
-From DF Require Import Base.Str Base.Value Proc.RowOps IO.Sql IO.Sql_proofs Base.PyEq_proofs.
+From DF Require Import Base.Str Base.Value Proc.RowOps IO.Sql IO.Sql_proofs IO.SqlKeys_proofs Base.PyEq_proofs.
 Import ListNotations.
 Open Scope Z_scope.
 
@@ -56,6 +56,24 @@ Proof.
   - apply update_spec_nobloom.
 Qed.
 Print Assumptions C20_update.
+
+(* update mode keeps "at most one row per key": a table with that property still has it after any update dump, whatever
+   the dumped rows (several rows with the same key inside one dump included), for every insert-buffer size, with the
+   filter off or exact; a table created by the dump (empty before) therefore ends with one row per distinct key *)
+Theorem C20_update_one_row_per_key : forall ks ub bs t rows,
+  (forall r, In r rows -> row_ok ks r) ->
+  (forall i j x y, nth_error t i = Some x -> nth_error t j = Some y -> key_match ks x y = true -> i = j) ->
+  forall i j x y,
+    let t' := w_table (impl_dump (Update ks) ub (fun _ => false) bs t rows) in
+    nth_error t' i = Some x -> nth_error t' j = Some y -> key_match ks x y = true -> i = j.
+Proof. exact impl_update_one_per_key. Qed.
+Print Assumptions C20_update_one_row_per_key.
+
+Theorem C20_update_creates_one_row_per_key : forall ks ub bs rows,
+  (forall r, In r rows -> row_ok ks r) ->
+  one_per_key ks (w_table (impl_dump (Update ks) ub (fun _ => false) bs [] rows)).
+Proof. intros ks ub bs rows OK. apply impl_update_one_per_key; [exact OK|apply one_per_key_nil]. Qed.
+Print Assumptions C20_update_creates_one_row_per_key.
 
 (* any sequence of dumps: the table is the fold of the per-mode specification *)
 Theorem C20_history : forall h,
